@@ -268,7 +268,7 @@ Lemma write_one_keeps G fs fields x o es stamp fs' r K :
   write_one G fs fields x o es stamp = (fs', r) ->
   content fs' K = content fs K.
 Proof.
-  intros W RK NA HG H. unfold write_one in H.
+  intros W RK NA HG H. unfold write_one, write_one_t in H.
   destruct (w_mode o) eqn:M; [|congruence|inversion H; reflexivity].
   assert (Core : forall r0 r1,
     (if isfile_p (nodes fs) (t_path x) && negb (w_overwrite o) then (fs, Some OtherErr)
@@ -300,7 +300,7 @@ Qed.
 Lemma write_one_wf G fs fields x o es stamp fs' r :
   tree_wf (nodes fs) -> write_one G fs fields x o es stamp = (fs', r) -> tree_wf (nodes fs').
 Proof.
-  intros W H. unfold write_one in H.
+  intros W H. unfold write_one, write_one_t in H.
   assert (Core : forall r0,
     (if isfile_p (nodes fs) (t_path x) && negb (w_overwrite o) then (fs, Some OtherErr)
      else if existsb (fun f => G fs f x) fields then (fs, Some ValueErr)
@@ -347,7 +347,7 @@ Lemma write_one_stable G fs fields x o es stamp fs' r K p :
   write_one G fs fields x o es stamp = (fs', r) ->
   realpath (nodes fs') p = K.
 Proof.
-  intros W RK HG HP H. unfold write_one in H.
+  intros W RK HG HP H. unfold write_one, write_one_t in H.
   assert (Core : forall r0, w_mode o <> MA ->
     (if isfile_p (nodes fs) (t_path x) && negb (w_overwrite o) then (fs, Some OtherErr)
      else if existsb (fun f => G fs f x) fields then (fs, Some ValueErr)
@@ -397,7 +397,7 @@ Qed.
 Lemma write_one_spell G fs fields x o es stamp fs' r :
   write_one G fs fields x o es stamp = (fs', r) -> spell fs' = spell fs.
 Proof.
-  intro H. unfold write_one in H.
+  intro H. unfold write_one, write_one_t in H.
   repeat match type of H with
          | context [match ?c with _ => _ end] => destruct c
          | context [if ?c then _ else _] => destruct c
@@ -425,7 +425,7 @@ Lemma write_one_append G fs fields x o es stamp fs' r K :
   stamp_of (content fs' K) = stamp_of (content fs K)
   /\ (is_regular (nodes fs) K = true -> is_regular (nodes fs') K = true).
 Proof.
-  intros M H. unfold write_one in H. rewrite M in H.
+  intros M H. unfold write_one, write_one_t in H. rewrite M in H.
   destruct (w_fault o); try (inversion H; subst; split; [reflexivity|auto]; fail);
     destruct (negb (isfile_p (nodes fs) (t_path x))); try (inversion H; subst; split; [reflexivity|auto]; fail);
     destruct es; inversion H; subst; try (split; [reflexivity|auto]; fail);
@@ -558,7 +558,7 @@ Lemma no_overwrite C FW G fs q o stamp :
 Proof.
   intros M O X.
   assert (exists e, write_one G fs (q_fields q) (q_x q) o (ext_same (nodes fs) (q_x q) (q_ext q)) stamp = (fs, Some e)) as [e E].
-  { unfold write_one. rewrite M, O, X. simpl. destruct (w_fault o); eauto. }
+  { unfold write_one, write_one_t. rewrite M, O, X. simpl. destruct (w_fault o); eauto. }
   exists e. unfold write_gen. rewrite E. reflexivity.
 Qed.
 
@@ -571,7 +571,7 @@ Lemma refused_untouched C FW G fs q o stamp :
 Proof.
   intros M N1 N2 Ho Hg.
   assert (E : write_one G fs (q_fields q) (q_x q) o (ext_same (nodes fs) (q_x q) (q_ext q)) stamp = (fs, Some ValueErr)).
-  { unfold write_one. rewrite M.
+  { unfold write_one, write_one_t. rewrite M.
     destruct (w_fault o) eqn:Ef; try (exfalso; eapply N1; eauto; fail);
       try (exfalso; eapply N2; eauto; fail); rewrite Ho, Hg; reflexivity. }
   unfold write_gen. rewrite E. reflexivity.
@@ -595,7 +595,7 @@ Lemma option_error_untouched C FW G fs q o stamp :
 Proof.
   intro H.
   assert (exists e, write_one G fs (q_fields q) (q_x q) o (ext_same (nodes fs) (q_x q) (q_ext q)) stamp = (fs, Some e)) as [e E].
-  { destruct H as [M|[[e Ef]|[M [e Ef]]]]; unfold write_one.
+  { destruct H as [M|[[e Ef]|[M [e Ef]]]]; unfold write_one, write_one_t.
     - rewrite M. eauto.
     - rewrite Ef. destruct (w_mode o); eauto.
     - rewrite M, Ef. eauto. }
@@ -665,4 +665,58 @@ Proof.
   - repeat constructor.
   - vm_compute. split; reflexivity.
   - vm_compute. split; reflexivity.
+Qed.
+
+(* ---- names as given -------------------------------------------------------------------- *)
+Lemma target_of_ext ev fs r1 r2 : expand ev r1 = expand ev r2 -> target_of ev fs r1 = target_of ev fs r2.
+Proof. intro H. unfold target_of. rewrite H. reflexivity. Qed.
+
+(* the whole call - what is refused, what is removed, created, appended to, the error raised -
+   depends on the names only through what they expand to *)
+Lemma spelling_invariant ev G fs q1 q2 o stamp :
+  gq_fields q1 = gq_fields q2 -> gq_efields q1 = gq_efields q2 ->
+  expand ev (gq_x q1) = expand ev (gq_x q2) ->
+  option_map (expand ev) (gq_ext q1) = option_map (expand ev) (gq_ext q2) ->
+  write_given ev G fs q1 o stamp = write_given ev G fs q2 o stamp.
+Proof.
+  intros F E X Ex. unfold write_given, expand_req. rewrite F, E, (target_of_ext ev fs _ _ X).
+  replace (option_map (target_of ev fs) (gq_ext q1)) with (option_map (target_of ev fs) (gq_ext q2)); [reflexivity|].
+  destruct (gq_ext q1), (gq_ext q2); simpl in *; try discriminate; try reflexivity.
+  inversion Ex as [Ex']. rewrite (target_of_ext ev fs _ _ Ex'). reflexivity.
+Qed.
+
+Lemma guard_sound_given ev fs q o stamp fs' r f n :
+  tree_wf (nodes fs) -> In f (gq_fields q) -> needs f n ->
+  is_regular (nodes fs) (real fs n) = true ->
+  write_given ev guard fs q o stamp = (fs', r) ->
+  match w_mode o with
+  | MA => stamp_of (content fs' (real fs n)) = stamp_of (content fs (real fs n))
+  | _ => content fs' (real fs n) = content fs (real fs n)
+  end.
+Proof. intros W Hf. apply (guard_sound fs (expand_req ev fs q) o stamp fs' r f n W Hf). Qed.
+
+Lemma no_overwrite_all_given ev G fs q o stamp fs' r K :
+  tree_wf (nodes fs) -> w_mode o = MW -> w_overwrite o = false -> is_regular (nodes fs) K = true ->
+  write_given ev G fs q o stamp = (fs', r) ->
+  content fs' K = content fs K.
+Proof. apply no_overwrite_all. Qed.
+
+Lemma no_overwrite_given ev G fs q o stamp :
+  w_mode o = MW -> w_overwrite o = false -> isfile_p (nodes fs) (expand ev (gq_x q)) = true ->
+  exists e, write_given ev G fs q o stamp = (fs, Some e).
+Proof. intros M O X. apply (no_overwrite true true G fs (expand_req ev fs q) o stamp M O X). Qed.
+
+(* example: $V/e.nc, ${V}/e.nc (the same token), ~/e.nc and the plain name, with V = HOME = /d/data *)
+Definition ex_env : env := mkE [(1, [1; 2])] [1; 2].
+Definition ex_gq (x : rname) : greq := mkGQ [ex_h] [] x None.
+
+Lemma given_example :
+  Forall (fun x => write_given ex_env guard ex_fs (ex_gq x) (mkW MW false FNone) 1000 = (ex_fs, Some OtherErr))
+         [[RLit 1; RLit 2; RLit 8]; [RVar 1; RLit 8]; [RHome; RLit 8]; [RLit 1; RLit 3; RLit 8]] /\
+  (* the test made on the unexpanded name: nothing refused, the existing file replaced *)
+  (let '(fs', r) := write_given_test_unexpanded (fun _ => [99; 8]) ex_env guard ex_fs (ex_gq [RVar 1; RLit 8])
+                      (mkW MW false FNone) 1000 in
+   r = None /\ content fs' [1; 2; 8] <> content ex_fs [1; 2; 8]).
+Proof.
+  split; [repeat constructor|]. vm_compute. split; [reflexivity|discriminate].
 Qed.
